@@ -1,18 +1,21 @@
 """C03 — lexical scoping: closures capture where they were made, never the caller.
 
 Lean: Props/C03.lean (theorems about the scope machinery of the VM model, Model/VM.lean:
-lexLookup and its three stages, NewClosing, scope allocation, closure creation), lemmas in
-Proofs/Scope.lean; Spec/RefEval.lean is the reference (closures by environment pointer).
-Tie: channel `scope` (generator harness/gen_scope.go; Exec and Lean driver logic of channel
-`eval`): impl vs VM model on class/value/trace/stack depths, impl vs reference evaluator on
-class/value/trace."""
+lexLookup and its three stages, NewClosing, scope allocation, closure creation, for all
+states / programs / fuel), lemmas in Proofs/Scope.lean (lookups as first-binding searches),
+Proofs/ScopeInv.lean (invariants WF/Ext preserved by every function of the VM's mutual
+block), Proofs/ScopeGen.lean (the generator only extends the function table),
+Proofs/ScopeSim.lean (Sim, lookup_sound); Spec/RefEval.lean is the reference (closures by
+environment pointer).  Tie: channel `scope` (generator harness/gen_scope.go; Exec and record
+format of channel `eval`; Driver/Scope.lean): impl vs VM model on class/value/trace/four
+stack depths, impl vs reference evaluator on class/value/trace."""
 import importlib.util, json, os
 import vcommon as V
 
 META = dict(
-    text="(filled in below)",
-    note="",
-    technique="Lean 4 theorems over the executable model of the VM's scope machinery; 3-way model/spec/implementation correspondence through the line protocol",
+    text="Lean 4. Proved about the executable model of the VM's scope machinery (Model/VM.lean: LexicalLookupSymbol with its three stages, LookupSymbolUntilFunction, the parent chain of closures, NewClosing, AddScope/AddFuncScope/RemoveScope/CreateClosure, and the whole mutual block Run/exec/CallResolved/Apply/Force around them), for all states, programs, histories and fuel: (1) shadowing_innermost_first / lookup_none_iff — a lookup returns the first scope binding the name along an explicit search list (live scopes of the current activation down to its function scope, then the captured scopes of the running closure and of its creators, then the template's captured scopes); (2) no_dynamic_leak / never_a_callers_local — the scope found is above the innermost live function boundary or captured, never a caller's local (a live scope below the boundary that was not captured); createClosure_captures / closure_captures_no_caller_local — CreateClosure stores exactly the part of the live stack above the boundary; (3) fresh_activation — AddScope/AddFuncScope push a scope id held by no stack, closure or lazy argument, with no variables, from the invariant WF (all ids below the table size) which every function of the VM preserves (wf_preserved, wf_reachable, by induction on fuel over the 13 mutually recursive functions and over the 8 mutually recursive generator functions); function code starts with AddFuncScope and a self tail call re-enters at instruction 0; (4) capture_by_reference / shared_update — closures created while the live stack is the same hold the same scope ids, an assignment through one is read by the other; (5) capture_outlives / pop_keeps_cells — no function of the VM removes a scope cell, changes a boundary flag, or changes the captured stack or parent of an existing closure; (6) lookup_sound — under the explicit simulation relation Sim between a VM state and a reference environment the two lookups agree; preservation of Sim is proved for entering a scope only (sim_preserved_partial names what is missing). The model is tied to the Go code by channel `scope`: histories of program texts against one interpreter, every name (ints, closures, makers, arrays of closures, loop counters, parameters, defn names) drawn from ONE pool of 2-3 names with a static type environment, 50 shape templates under colliding name assignments, and an exhaustive small scope (all programs of up to three nested scope constructs let/letseq/call/defn/newScope/for/def-in-fn/self-tail-call over the names a b, with capture at every level, mutation after capture, observation from the innermost point and after everything returned); implementation vs VM model on class/value/trace/four stack depths, implementation vs reference evaluator on class/value/trace. A unit test pins about twenty nestings; the theorems cover every state, the correspondence every generated shape.",
+    note="Trusted: Lean kernel; axioms propext/Classical.choice/Quot.sound. The theorems are about the hand-written model; it is tied to zygo/{environment,scopes,closing,vm,generator,expressions,stack}.go only by the `scope` (and C02's `eval`) correspondence, i.e. by differential testing. Model/Prim.lean (builtins on values) and the elaborator are shared by model and reference. Partial: preservation of Sim (hence the end-to-end 'VM lookup = reference lookup in every reachable state') is proved only for AddScope; leaving a scope, def/set, closure creation, call/return/tail call, apply/map, lazy arguments are held by the 3-way correspondence. Reachable is closed under whole texts and under exec/run/apply/force applied to reachable states, not under every intermediate state inside an instruction. The fix C03-01 test is syntactic: a name re-bound by a macro expansion or assigned from another function while the function is in a self-tail-call loop is not seen. Outside the modelled core: infix syntax, macros, packages, eval, hashes, floats.",
+    technique="Lean 4 theorems (invariants by induction on fuel over the VM's mutual block and by structural induction over the generator) on an executable model; 3-way model/spec/implementation correspondence through the line protocol with a collision-directed generator and an exhaustive small scope",
     design_ref="DESIGN.md §7 C03, §13 (Lookup, Calls, Function prologue/epilogue)",
 )
 
@@ -26,6 +29,27 @@ def _c02():
     return mod
 
 
+def settle_hangs(rows):
+    """The harness answers `hang` for a whole history when its wall-clock watchdog fires (a
+    self tail call is a jump: no call budget sees the loop). If the reference evaluator ran out
+    of fuel on some text of that history and the model times out on the same text, the program
+    does not terminate under any of the three: there is nothing to judge (and the texts before
+    it cannot be compared, the per-text answers of the implementation being lost). Such an op
+    is compared as model = implementation, without a spec answer. A hang anywhere else stays a
+    hang and is judged by C02's `judge` (a failing input when the reference terminates)."""
+    out, n = [], 0
+    for op, impl, model, spec in rows:
+        if impl == "hang":
+            srecs, mrecs = spec.split(" ;; "), model.split(" ;; ")
+            k = next((i for i, r in enumerate(srecs) if r == "-"), None)
+            if k is not None and k < len(mrecs) and mrecs[k].startswith("timeout"):
+                n += 1
+                out.append((op, model, model, "-"))
+                continue
+        out.append((op, impl, model, spec))
+    return out, n
+
+
 def run(rep):
     try:
         with open(os.path.join(HERE, "notes", "C03.known.json")) as f:
@@ -36,16 +60,41 @@ def run(rep):
         pass
     prep = V.prepare(["ZygoVerif.Props.C03"])
     V.lean_phase(rep, prep, "ZygoVerif.Props.C03")
+    rep.coverage["proved"] = ("shadowing_innermost_first, lookup_none_iff, live_scope_shadows_captured; no_dynamic_leak, never_a_callers_local, "
+                              "createClosure_captures, closure_captures_no_caller_local, captured_reads_as_live; wf_preserved(+_run,_text), wf_reachable, "
+                              "fresh_activation, function_code_starts_with_addFuncScope, self_tail_call_reenters_at_zero; closingNow_congr, "
+                              "capture_by_reference, shared_update; capture_outlives(+_run,_text), pop_keeps_cells; lookup_sound, sim_preserved_partial; "
+                              "selfname_shadowed_counterexample / _is_ordinary_call / selfname_as_value_keeps_jump (fix C03-01)")
+    rep.coverage["not_proved"] = ("SimPreservedFull: preservation of the simulation relation is proved for AddScope only (sim_preserved_partial); "
+                                  "RemoveScope, def/set, CreateClosure, call/return/self tail call, apply/map, lazy arguments are held by the `scope` "
+                                  "correspondence of this run, not by a theorem")
+    rep.assumptions += [
+        "Model/VM.lean, Model/Gen.lean are hand-written; tied to the Go code by the `scope` correspondence (class, value, trace, four stack depths per text) and by C02's `eval` correspondence",
+        "Model/Prim.lean (builtins on values, truthiness, the BindSymbol re-binding rule) and the elaborator are shared by model and reference evaluator",
+        "domain: s-expression syntax; ints, closures, arrays/lists of closures; fn/defn/let/letseq/newScope/for/def/set/cond/begin, map/apply/aget/append/concat/first/second/list; no infix, macros, eval, hashes",
+        "programs whose reference evaluation runs out of fuel are judged against the model only (none in the quick tier of seed 1)",
+        "the channel's own fuel (Driver/Scope.lean: 6000 instructions per run, reference depth 1500) bounds programs much earlier than channel eval; the generator's rank discipline makes non-terminating programs rare",
+    ]
     if not (prep["ok_drv"] and prep["ok_harness"]):
         rep.violation("machinery-failure", {"what": "driver or harness did not build against the current tree",
                       "theorem_or_correspondence": "build of zydrv/zyh", "log": (prep["drv_out"] + prep["harness_out"])[-3000:]}, no_input=True)
         return
     judge = _c02().judge
     rows, stats = V.run_channel("scope", rep.seed, rep.tier)
+    rows, nonterm = settle_hangs(rows)
     rows, jstats = judge(rows)
+    jstats["hang_where_reference_and_model_do_not_terminate_either"] = nonterm
 
     def nontrivial(op, impl):
         return impl.startswith("ok") or " ;; ok" in impl
     bad_spec, bad_model = V.correspondence(rep, "scope", rows, stats, nontrivial=nontrivial)
     rep.coverage["channels"]["scope"].update(jstats)
+    rep.coverage["channels"]["scope"]["ops_with_an_error_text"] = sum(1 for r in rows if r[1].startswith("err") or " ;; err" in r[1] or r[1].startswith("cerr") or " ;; cerr" in r[1])
+    rep.coverage["exhaustive"] = rep.tier == "thorough"
+    rep.coverage["rule"] = ("histories of 1-3 texts against one interpreter. Streams: 19 hand-written ops; ~50 shape templates x name assignments from a pool of 2-3 "
+                            "names (collisions included); typed random programs where EVERY name comes from one pool of 2-3 names (static type environment, "
+                            "termination by a rank discipline); small scope = all programs of k nested scope constructs (8 kinds x 2 names x 2 initialisers x 3 "
+                            "mutations = 96 per level) with a capture at every level: k=1 complete, k=2 complete in thorough (700 sampled in quick), k=3 over the "
+                            "reduced mutation alphabet: a quarter per seed in thorough (all 393 216 with VERIF_SCOPE_FULL=1), 600 sampled in quick. "
+                            "`typed op: …` counters say how many typed ops exercise each feature; an op is non-trivial when at least one text evaluated to a value")
     V.proof_break_resolution(rep, bool(bad_spec))
